@@ -22,6 +22,17 @@ def main():
     rng = random.Random(f"C15:{seed}:{k}")
     d = gen.gen_definition(rng, n_state=rng.choice([2, 3, 4]), n_control=rng.choice([0, 1, 2]), n_calib=rng.choice([0, 1, 2]),
                            n_sensors=rng.choice([1, 2, 3]), depth=2)
+    if k % 3 == 2:
+        # a larger model (>= 9 states: index sets no longer iterate in ascending order by accident)
+        names = gen.fresh_names(rng, 11)
+        st = [gen.Symbol(x) for x in names[:10]]
+        u = gen.Symbol(names[10])
+        dts = gen.Symbol("dt")
+        sm = {}
+        for idx, sx in enumerate(st):
+            sm[sx] = sx + dts * st[(idx + 8) % 10] * gen.Rational(1, 2) + (dts * u if idx % 4 == 0 else 0) + st[(idx + 3) % 10] * st[(idx + 8) % 10] * gen.Rational(1, 8)
+        d = gen.Definition(dts, st, [u], [], {a: gen.sympy.sympify(b) for a, b in sm.items()},
+                           {"wide0": {"r_a": st[0] + st[8] * st[1], "r_b": st[9] - st[1]}})
     d._kind = "ekf"
     if k % 2 == 1:
         # names that differ only in case (sorting must still be a total order on them)
@@ -38,6 +49,13 @@ def main():
             d = d.renamed(full)
             d._kind = "ekf"
     process, sensor = eh.make_noises(rng, d)
+    from fractions import Fraction as _F
+    for key in sorted(sensor):
+        first = sorted(sensor[key])[0]
+        sensor[key][first] = _F(4)
+        break
+    for key in sorted(process)[:1]:
+        process[key] = _F(2)
     cal = {s.name: 1.25 for s in d.calibration}
     prng = random.Random(perm_seed)
     # permute declaration order of symbols, update entries, sensors, readings, noise entries
@@ -55,6 +73,15 @@ def main():
     scratch = tempfile.mkdtemp(prefix="c15w_")
     out = {"hashseed": os.environ.get("PYTHONHASHSEED"), "perm": perm_seed, "container": container}
     try:
+        if perm_seed % 2 == 1:
+            # another definition generated BEFORE this one in the same process, spelling equal noise values as ints
+            pre = gen.gen_definition(random.Random(perm_seed + 5), n_state=2, n_control=1, n_calib=0, n_sensors=1, depth=2)
+            pre._kind = "ekf"
+            ppn, psn = eh.make_noises(random.Random(2), pre)
+            vals = sorted({int(v) for v in list(process.values()) + [x for rd in sensor.values() for x in rd.values()] if v == int(v)} | {4, 2})
+            ppn = {key: vals[i % len(vals)] for i, key in enumerate(ppn)}
+            psn = {key: {r: vals[(i + j) % len(vals)] for j, r in enumerate(rd)} for i, (key, rd) in enumerate(psn.items())}
+            cppgen.generate(pre, ppn, psn, {}, scratch, "pre", rng=None, raw_noise=True)
         g = cppgen.generate(d, process, sensor, cal, scratch, "det", rng=None, container=container)
         h, s = open(g["header"]).read(), open(g["source"]).read()
         # the same definition generated again in the same process (after other generations) must give the same bytes
